@@ -35,6 +35,11 @@ func (p *Path) freshBytes(label string, lo, hi uint64) SliceV {
 }
 
 func addEnvIntrinsics(m map[string]intrinsic) {
+	// collation weights: identity on code points (exact for utf8mb4_0900_bin, an abstraction for *_ai_ci whose
+	// case/accent folding is go-mysql-server table data)
+	m["(github.com/dolthub/go-mysql-server/sql.CollationID).Sorter"] = func(p *Path, fn *ssa.Function, a []Value, pos token.Pos, caller *ssa.Function) []Value {
+		return []Value{FuncV{Builtin: "verif:sorter-identity"}}
+	}
 	// snappy: contents are opaque; Decode may fail on any input
 	m["github.com/golang/snappy.Decode"] = func(p *Path, fn *ssa.Function, a []Value, pos token.Pos, caller *ssa.Function) []Value {
 		if p.envBool("snappy_decode_ok") {
